@@ -96,6 +96,31 @@ fn main() {
         std::process::exit(props::replay(&ctx, &path));
     }
 
+    // engine caps: resident memory and wall clock.  Hitting one is a machinery exit (3), never a verdict: a driver
+    // change that makes the harness itself blow up must not take the machine down or hang a pipeline.
+    {
+        let max_rss_gb: u64 = std::env::var("MC_MAX_RSS_GB").ok().and_then(|s| s.parse().ok()).unwrap_or(28);
+        let max_wall_s: u64 = std::env::var("MC_MAX_WALL_S").ok().and_then(|s| s.parse().ok()).unwrap_or(if tier == Tier::Quick { 1800 } else { 6 * 3600 });
+        let prop = prop.clone();
+        std::thread::spawn(move || {
+            let t0 = std::time::Instant::now();
+            loop {
+                std::thread::sleep(std::time::Duration::from_millis(250));
+                if let Ok(s) = std::fs::read_to_string("/proc/self/statm") {
+                    let pages: u64 = s.split_whitespace().nth(1).and_then(|x| x.parse().ok()).unwrap_or(0);
+                    if pages * 4096 > max_rss_gb << 30 {
+                        eprintln!("MACHINERY: {prop}: resident memory exceeded the harness cap of {max_rss_gb} GiB (MC_MAX_RSS_GB)");
+                        std::process::exit(3);
+                    }
+                }
+                if t0.elapsed().as_secs() > max_wall_s {
+                    eprintln!("MACHINERY: {prop}: wall-clock cap of {max_wall_s} s exceeded (MC_MAX_WALL_S)");
+                    std::process::exit(3);
+                }
+            }
+        });
+    }
+
     let Some(entry) = props::lookup(&prop) else {
         eprintln!("unknown property {prop}");
         std::process::exit(2)
